@@ -72,6 +72,26 @@ def sources(tier, seed, ctx):
     src.append(('twins_library_exotic_first', [lib, dict(lib, t=0), ck.acell([1], [1, 2])]))
     p1 = prb(1)
     src.append(('twins_pruned', [p1, dict(p1, t=0), ck.acell([1, 1], [2, 1, 2])]))
+    # cells without any data: the payload is descriptors and references only (86..255 such cells make the offsets wider than the indices)
+    for n in (60, 86, 120, 255):
+        src.append(('empty_chain_%d' % n, [ck.acell([], [])] + [ck.acell([], [k]) for k in range(1, n)]))
+    src.append(('empty_tree_85', [dict(c, n=0, y=[]) for c in bk.tree_heap(85)]))
+    # a Merkle proof above a pruned branch that records a depth far beyond what is left of the tree (depth order is not reference order)
+    try:
+        from pytoniq_core.boc import Builder as _B
+        for stored in (40, 900):
+            yb = bytes([1, 1]) + bytes(rng.getrandbits(8) for _ in range(32)) + stored.to_bytes(2, 'big')
+            pb = _B(type_=1)
+            pb.store_bytes(yb)
+            pr = pb.end_cell()
+            inner = _B().store_uint(5, 3).store_ref(pr).store_ref(_B().store_uint(1, 1).end_cell()).end_cell()
+            proof = _B(type_=3).store_uint(3, 8).store_bytes(inner.get_hash(0)).store_uint(inner.get_depth(0), 16).store_ref(inner).end_cell()
+            top = _B().store_uint(9, 4).store_ref(_B().store_uint(2, 2).end_cell()).store_ref(proof).end_cell()
+            for root, nm in ((proof, 'proof'), (top, 'over_proof')):
+                heap, _, _ = ck.project([root])
+                src.append(('deep_pruned_%s_%d' % (nm, stored), heap))
+    except Exception:
+        pass
     # chains at the depth limit (and just below the depth at which a per-level recursion exhausts a default interpreter stack)
     for depth in ((1023, 990) if tier == 'quick' else (1023, 1022, 1000, 990, 960)):
         chain = [ck.acell([1], [])]
@@ -116,7 +136,8 @@ def generate(tier, seed, ctx):
     for k, (note, heap) in enumerate(sources(tier, seed, ctx)):
         try:
             # (every third source: each builder is used again after its cell was taken - more data, another reference, a second cell)
-            objs = ck.build_heap(heap, 'reuse' if k % 3 == 1 and len(heap) < 300 else 'builder')
+            # (another third: cells made with the Cell constructor directly from a plain bit array)
+            objs = ck.build_heap(heap, 'reuse' if k % 3 == 1 and len(heap) < 300 else 'ctor_plain' if k % 3 == 2 and len(heap) < 300 else 'builder')
         except Exception as e:
             continue      # construction problems are C01/C02's subject
         root = objs[-1]
